@@ -88,6 +88,7 @@ SHAPES = {
     "index": (["(get", "{}", "{i}", ")"], (0, 3), (), "index"),
     "name": (["nosuch{i}"], (0, 0), (), "name"),
     "attr": (["o.nosuch{i}"], (0, 0), (), "attr"),
+    "fstr": (["f\"a{(boom {i})}b\""], (0, 0), (), "call"),
     # ---- the raising form is the ARGUMENT of a user macro: it keeps its own position
     "arg_ident": (["(m-ident", "(boom {i})", ")"], (1, 1), ("m-ident",), "call"),
     "arg_qq": (["(m-qq", "(boom {i})", ")"], (1, 1), ("m-qq",), "call"),
@@ -97,11 +98,12 @@ SHAPES = {
     "tmpl": (["(t-boom", "{i}", ")"], (0, 2), ("t-boom",), "call"),
     "tmpl_deep": (["(t-deep", "{i}", ")"], (0, 2), ("t-deep",), "call"),
     "tmpl_raise": (["(t-raise", "{i}", ")"], (0, 2), ("t-raise",), "raise"),
+    "tmpl_fstr": (["(t-fstr", "{i}", ")"], (0, 2), ("t-fstr",), "call"),
     # "ptmpl": the PARENT form of the leaf is a macro template (generated per case), see render_program
 }
-SHAPE_ORDER = ["plain", "split", "meth", "dotmeth", "raise", "div", "index", "name", "attr",
-               "arg_ident", "arg_qq", "arg_splice", "arg_nested", "tmpl", "tmpl_deep", "tmpl_raise", "ptmpl"]
-TEMPLATE_SHAPES = ("tmpl", "tmpl_deep", "tmpl_raise", "ptmpl")
+SHAPE_ORDER = ["plain", "split", "meth", "dotmeth", "raise", "div", "index", "name", "attr", "fstr",
+               "arg_ident", "arg_qq", "arg_splice", "arg_nested", "tmpl", "tmpl_deep", "tmpl_raise", "tmpl_fstr", "ptmpl"]
+TEMPLATE_SHAPES = ("tmpl", "tmpl_deep", "tmpl_raise", "tmpl_fstr", "ptmpl")
 ARG_SHAPES = ("arg_ident", "arg_qq", "arg_splice", "arg_nested")
 
 MACROS = {
@@ -113,6 +115,7 @@ MACROS = {
     "t-boom": "(defmacro t-boom [n] `(boom ~n))",
     "t-deep": "(defmacro t-deep [n] `[(log 0 0) (boom ~n)])",
     "t-raise": "(defmacro t-raise [n] `(raise (Marker ~n)))",
+    "t-fstr": "(defmacro t-fstr [n] `f\"a{(boom ~n)}\")",
 }
 
 # whole-term wrappers: the complete term (with the raising leaf somewhere inside)
